@@ -641,6 +641,20 @@ where
     }
 }
 
+pub(crate) fn preempt_point() {
+    if let Some(ctx) = current_worker() {
+        let reg = ctx.registry.clone();
+        {
+            let mut g = reg.lock();
+            g.trace.preempt_points += 1;
+        }
+        match reg.sched_point(ctx.index, Status::Yield, None) {
+            Assign::Resume => {}
+            _ => unreachable!(),
+        }
+    }
+}
+
 fn worker_main(reg: Arc<Registry>, index: usize) {
     sim::call_thread_hook(reg.id, index);
     let ctx = WorkerCtx {
